@@ -9,6 +9,10 @@ import (
 	"encoding/binary"
 	"fmt"
 	"go/ast"
+	"go/parser"
+	"go/printer"
+	"go/token"
+	"path/filepath"
 	"sort"
 	"strconv"
 	"strings"
@@ -83,6 +87,35 @@ func loopFacts(f *hc.Facts, fn string) (endTest string, sendBeforeLast bool, fou
 	return
 }
 
+// structFieldType returns the source of the type of field `field` of struct `typ` in dir/file, or "".
+func structFieldType(f *hc.Facts, dir, file, typ, field string) string {
+	fset := token.NewFileSet()
+	af, err := parser.ParseFile(fset, filepath.Join(f.Repo, dir, file), nil, 0)
+	if err != nil {
+		return ""
+	}
+	out := ""
+	ast.Inspect(af, func(n ast.Node) bool {
+		ts, ok := n.(*ast.TypeSpec)
+		if !ok || ts.Name.Name != typ {
+			return true
+		}
+		if st, ok := ts.Type.(*ast.StructType); ok {
+			for _, fl := range st.Fields.List {
+				for _, nm := range fl.Names {
+					if nm.Name == field {
+						var b bytes.Buffer
+						printer.Fprint(&b, fset, fl.Type)
+						out = b.String()
+					}
+				}
+			}
+		}
+		return false
+	})
+	return out
+}
+
 func facts(f *hc.Facts) {
 	e1, s1, ok1 := loopFacts(f, "stream")
 	e2, s2, ok2 := loopFacts(f, "parallel")
@@ -136,6 +169,42 @@ func facts(f *hc.Facts) {
 		boolFact(f, name, found && shape == "retryAttempt++;call;continue", found && shape != "retryAttempt++;call;continue",
 			fn+": retry branch = "+shape)
 	}
+	// reader.next hands the chunk on as it came (also an empty one, with its storage type): the loop body
+	// is `ch, err := Chunk; if flood… {…}; return block{chunk: ch, offset: offset, partSize: r.partSize}, nil`
+	shapeNext := ""
+	if fd := f.FuncDecl("telegram/downloader", "reader.next"); fd != nil {
+		ast.Inspect(fd.Body, func(n ast.Node) bool {
+			fs, ok := n.(*ast.ForStmt)
+			if !ok {
+				return true
+			}
+			var parts []string
+			for _, st := range fs.Body.List {
+				switch s := st.(type) {
+				case *ast.AssignStmt:
+					parts = append(parts, "assign")
+				case *ast.IfStmt:
+					parts = append(parts, "if")
+				case *ast.ReturnStmt:
+					parts = append(parts, strings.Join(strings.Fields(f.Src(s)), ""))
+				default:
+					parts = append(parts, fmt.Sprintf("%T", st))
+				}
+			}
+			shapeNext = strings.Join(parts, ";")
+			return false
+		})
+	}
+	wantNext := "assign;if;returnblock{chunk:ch,offset:offset,partSize:r.partSize,},nil"
+	boolFact(f, "nextReturnsChunkAsIs", shapeNext == wantNext, shapeNext != "" && shapeNext != wantNext, "reader.next loop body: "+shapeNext)
+	// the offset counter is a 64-bit byte offset advanced in 64-bit arithmetic
+	offType := ""
+	if fd := f.FuncDecl("telegram/downloader", "reader.nextPlain"); fd != nil {
+		offType = f.Src(fd.Body)
+	}
+	is64 := strings.Contains(offType, "offset := r.offset") && strings.Contains(offType, "r.offset += int64(r.partSize)") &&
+		strings.Contains(offType, "return r.next(ctx, offset, r.partSize)") && structFieldType(f, "telegram/downloader", "reader.go", "reader", "offset") == "int64"
+	boolFact(f, "offsetIsInt64", is64, offType != "" && !is64, "reader.offset int64; nextPlain: offset := r.offset; r.offset += int64(r.partSize)")
 	boolFact2("readerRetryUnbounded", "reader.next")
 	boolFact2("verifierRetryUnbounded", "verifier.next")
 }
@@ -201,9 +270,50 @@ type mock struct {
 	done    chan struct{}
 	events  []string
 	k       int
+	sent    int
+	stops   int
 }
 
 var fileType = &tg.StorageFileMp4{}
+
+// hookOnce installs the scheduling-point hook of /repo/telegram/downloader/verif_hook_c33.go: events are
+// routed to the mock client the download runs against.
+var hookOnce sync.Once
+
+func installHook() {
+	hookOnce.Do(func() {
+		downloader.VerifC33Hook = func(client any, ev string, off int64, n int) {
+			if m, ok := client.(*mock); ok {
+				m.observe(ev, off, n)
+			}
+		}
+	})
+}
+
+// observe records the model's actions at the code's own scheduling points: `request` (reader.next entered
+// for a freshly allocated offset; concurrent workers may get here in another order than they allocated, so
+// the allocations up to that index are emitted) and `complete` (a parallel worker's r.Next returned).
+func (m *mock) observe(ev string, off int64, n int) {
+	if !m.gated || m.ps <= 0 {
+		return
+	}
+	m.mu.Lock()
+	defer m.mu.Unlock()
+	idx := int(off / int64(m.ps))
+	switch ev {
+	case "request":
+		for m.k <= idx {
+			m.events = append(m.events, "a")
+			m.k++
+		}
+	case "complete":
+		m.events = append(m.events, "c"+strconv.Itoa(idx))
+	case "sent":
+		m.sent++
+	case "stop":
+		m.stops++
+	}
+}
 
 func (m *mock) UploadGetFile(ctx context.Context, r *tg.UploadGetFileRequest) (tg.UploadFileClass, error) {
 	m.mu.Lock()
@@ -225,14 +335,6 @@ func (m *mock) UploadGetFile(ctx context.Context, r *tg.UploadGetFileRequest) (t
 		m.badReq = fmt.Sprintf("offset %d is not a multiple of the part size", off)
 	}
 	var p *pend
-	if m.gated {
-		if a == 0 {
-			for m.k <= idx {
-				m.events = append(m.events, "a")
-				m.k++
-			}
-		}
-	}
 	sc := m.script[idx]
 	// long fault runs: only the first and the serving attempt go through the scheduler
 	if m.gated && (a == 0 || a >= len(sc) || len(sc) <= 3) {
@@ -256,11 +358,6 @@ func (m *mock) UploadGetFile(ctx context.Context, r *tg.UploadGetFileRequest) (t
 		case 'e':
 			return nil, tgerr.New(400, "LOCATION_INVALID")
 		}
-	}
-	if m.gated {
-		m.mu.Lock()
-		m.events = append(m.events, "c"+strconv.Itoa(idx))
-		m.mu.Unlock()
 	}
 	return &tg.UploadFile{Type: fileType, Bytes: m.g.chunk(off, limit)}, nil
 }
@@ -382,6 +479,7 @@ func hasErr(sc map[int]string) bool {
 }
 
 func runCase(d *dcase) (res dresult) {
+	installHook()
 	m := &mock{g: gen{d.seed, d.size}, ps: d.ps, script: d.script, attempts: map[int64]int{}, limits: map[int64]map[int]bool{}}
 	res.m = m
 	defer func() {
@@ -476,6 +574,7 @@ func reqString(m *mock) string {
 func run(c *hc.Ctx) error {
 	r := c.Rng.Fork() // hc.NewRNG(seed) streams of neighbouring seeds are the same sequence shifted by one draw and re-synchronise; a fork lands far away
 	floodBudget := c.N(6, 40)
+	var lines, impls []string
 	var cases []*dcase
 	add := func(class string, size int64, ps, threads int, withScript bool) {
 		d := &dcase{size: size, ps: ps, threads: threads, class: class, seed: r.U64(), rng: r.Fork()}
@@ -536,6 +635,22 @@ func run(c *hc.Ctx) error {
 		add("large", size, ps, threads, r.Chance(40))
 	}
 
+	// files beyond 2 GiB (Telegram serves up to 4 GB): 512 MiB parts answered from one shared zero slab
+	// that is never written, sinks that only count — byte offsets cross 2^31 and 2^32
+	hugeSizes := []int64{1<<31 - 1, 1 << 31, 1<<31 + 5, 1<<32 + 7}
+	if c.Thorough() {
+		hugeSizes = append(hugeSizes, 3<<30, 5<<30+5, 1<<32)
+	}
+	hugeStart := time.Now()
+	for i, size := range hugeSizes {
+		threads := 0
+		if i%2 == 1 {
+			threads = r.Range(2, 4)
+		}
+		runHuge(c, size, threads, &lines, &impls)
+	}
+	c.Note("huge-file section took %.1fs", time.Since(hugeStart).Seconds())
+
 	results := make([]dresult, len(cases))
 	var wg sync.WaitGroup
 	sem := make(chan struct{}, 6)
@@ -550,7 +665,6 @@ func run(c *hc.Ctx) error {
 	}
 	wg.Wait()
 
-	var lines, impls []string
 	for i, d := range cases {
 		res := results[i]
 		m := res.m
@@ -684,10 +798,14 @@ func run(c *hc.Ctx) error {
 				// which already fetched blocks still reach the writer after the error is up to the scheduler
 				impl = fmt.Sprintf("err r=%s", reqString(m))
 			}
-		case d.threads == 0:
-			impl = fmt.Sprintf("ok w=%s r=%s", wd, reqString(m))
 		default:
-			impl = fmt.Sprintf("ok w=%s r=%s", wd, reqString(m))
+			t := "other"
+			if res.typ == nil {
+				t = "none"
+			} else if res.typ == tg.StorageFileTypeClass(fileType) {
+				t = "some"
+			}
+			impl = fmt.Sprintf("ok t=%s w=%s r=%s", t, wd, reqString(m))
 		}
 		lines, impls = append(lines, line), append(impls, impl)
 	}
@@ -718,4 +836,142 @@ func firstDiff(a, b []byte) int {
 		}
 	}
 	return n
+}
+
+// ---------------------------------------------------------------- files beyond 2 GiB
+
+const hugePS = 512 << 20
+
+var (
+	slabOnce sync.Once
+	slab     []byte
+)
+
+type hugeClient struct {
+	mu   sync.Mutex
+	size int64
+	offs []int64
+	bad  string
+}
+
+func (h *hugeClient) UploadGetFile(ctx context.Context, r *tg.UploadGetFileRequest) (tg.UploadFileClass, error) {
+	h.mu.Lock()
+	h.offs = append(h.offs, r.Offset)
+	if r.Offset < 0 || r.Offset%hugePS != 0 || r.Limit != hugePS {
+		h.bad = fmt.Sprintf("request offset=%d limit=%d", r.Offset, r.Limit)
+	}
+	h.mu.Unlock()
+	if r.Offset < 0 {
+		return nil, tgerr.New(400, "OFFSET_INVALID")
+	}
+	n := int64(r.Limit)
+	if r.Offset >= h.size {
+		n = 0
+	} else if n > h.size-r.Offset {
+		n = h.size - r.Offset
+	}
+	return &tg.UploadFile{Type: fileType, Bytes: slab[:n]}, nil
+}
+func (h *hugeClient) UploadGetFileHashes(ctx context.Context, r *tg.UploadGetFileHashesRequest) ([]tg.FileHash, error) {
+	return nil, fmt.Errorf("unexpected")
+}
+func (h *hugeClient) UploadReuploadCDNFile(ctx context.Context, r *tg.UploadReuploadCDNFileRequest) ([]tg.FileHash, error) {
+	return nil, fmt.Errorf("unexpected")
+}
+func (h *hugeClient) UploadGetCDNFileHashes(ctx context.Context, r *tg.UploadGetCDNFileHashesRequest) ([]tg.FileHash, error) {
+	return nil, fmt.Errorf("unexpected")
+}
+func (h *hugeClient) UploadGetWebFile(ctx context.Context, r *tg.UploadGetWebFileRequest) (*tg.UploadWebFile, error) {
+	return nil, fmt.Errorf("unexpected")
+}
+
+// countSink records only the extent of what is written.
+type countSink struct {
+	mu      sync.Mutex
+	total   int64
+	ranges  map[int64]int64 // offset -> length (WriteAt)
+	overlap bool
+}
+
+func (s *countSink) Write(p []byte) (int, error) {
+	s.mu.Lock()
+	s.total += int64(len(p))
+	s.mu.Unlock()
+	return len(p), nil
+}
+
+func (s *countSink) WriteAt(p []byte, off int64) (int, error) {
+	s.mu.Lock()
+	if _, dup := s.ranges[off]; dup {
+		s.overlap = true
+	}
+	s.ranges[off] = int64(len(p))
+	s.total += int64(len(p))
+	s.mu.Unlock()
+	return len(p), nil
+}
+
+func runHuge(c *hc.Ctx, size int64, threads int, lines, impls *[]string) {
+	slabOnce.Do(func() { slab = make([]byte, hugePS) })
+	cl := &hugeClient{size: size}
+	sink := &countSink{ranges: map[int64]int64{}}
+	var typ tg.StorageFileTypeClass
+	var err error
+	var pv any
+	func() {
+		defer func() {
+			if r := recover(); r != nil {
+				pv = r
+			}
+		}()
+		b := downloader.NewDownloader().WithPartSize(hugePS).Download(cl, &tg.InputDocumentFileLocation{ID: 1})
+		if threads == 0 {
+			typ, err = b.Stream(context.Background(), sink)
+		} else {
+			typ, err = b.WithThreads(threads).Parallel(context.Background(), sink)
+		}
+	}()
+	sig := fmt.Sprintf("huge size=%d ps=%d threads=%d", size, hugePS, threads)
+	c.Eval(sig, true)
+	c.Count("huge-file")
+	offs := append([]int64(nil), cl.offs...)
+	sort.Slice(offs, func(i, j int) bool { return offs[i] < offs[j] })
+	switch {
+	case pv != nil:
+		c.Fail("download-panic", sig, fmt.Sprint(pv))
+	case err != nil:
+		c.Fail("download-unexpected-error", sig, err.Error()+" (requests "+fmt.Sprint(offs)+")")
+	default:
+		if sink.total != size || sink.overlap {
+			c.Fail("download-not-exact", sig, fmt.Sprintf("wrote %d bytes of %d (overlap=%v)", sink.total, size, sink.overlap))
+		}
+		if threads > 0 {
+			var covered int64
+			for off := int64(0); ; {
+				l, ok := sink.ranges[off]
+				if !ok || l == 0 {
+					break
+				}
+				off += l
+				covered = off
+			}
+			if covered != size {
+				c.Fail("download-not-exact", sig, fmt.Sprintf("contiguous coverage ends at %d of %d", covered, size))
+			}
+		}
+		if typ != tg.StorageFileTypeClass(fileType) {
+			c.Fail("download-type-not-reported", sig, fmt.Sprintf("type %v", typ))
+		}
+	}
+	if cl.bad != "" {
+		c.Fail("download-bad-request", sig, cl.bad)
+	}
+	if threads == 0 {
+		p := make([]string, len(cl.offs))
+		for i, o := range cl.offs {
+			p[i] = fmt.Sprintf("%d:%d", o, hugePS)
+		}
+		*lines = append(*lines, fmt.Sprintf("streamhuge %d %d", hugePS, size))
+		*impls = append(*impls, "r="+strings.Join(p, ","))
+	}
 }
